@@ -156,19 +156,19 @@ Log2Encl(N, D, J) ==
 EnclLo(en) == Q(IAdd(IShl(IFromNative(en.k), en.j), IFromNat(en.a)), PowerOfTwo(en.j))
 EnclHi(en) == Q(IAdd(IShl(IFromNative(en.k), en.j), IFromNat(Add(en.a, IF en.w = 1 THEN One ELSE <<>>))), PowerOfTwo(en.j))
 
-\* number of fractional bits needed to separate a decoded f32 bound from the logarithm
-FracBits(d) == IF d.cls = "fin" /\ d.e < 0 THEN -d.e ELSE 0
-EnclBits(dl, du) == Min2(136, Max2(32, Max2(FracBits(dl), FracBits(du)) + 8))
+\* number of fractional bits of a decoded f32 bound (its mantissa stripped of trailing zero bits)
+FracBits(d) == IF d.cls = "fin" /\ d.e < 0 /\ d.m # <<>> THEN Max2(0, -d.e - TrailingZeros(d.m)) ELSE 0
+\* bits of the logarithm needed to separate a bound from it
+EnclBits(dl, du) == Min2(136, Max2(12, Max2(FracBits(dl), FracBits(du)) + 8))
 
-(* lb <= log2(N/D) <= ub for decoded f32 bounds.  Returns <<why, undecided>>: why = "" unless a
-   bound is *proved* to be on the wrong side; a bound inside the enclosure is counted as
-   undecided and accepted (widened, never alarmed). *)
-Log2BoundsWhy(N, D, dl, du) ==
+(* lb <= log2(x) <= ub for decoded f32 bounds against an enclosure en of log2(x).
+   Returns <<why, undecided>>: why = "" unless a bound is *proved* to be on the wrong side; a bound
+   that falls inside the enclosure is counted as undecided and accepted (widened, never alarmed). *)
+BoundsVsEncl(en, dl, du) ==
   IF dl.cls = "nan" \/ du.cls = "nan" THEN <<"bound-is-nan", 0>>
   ELSE IF dl.cls = "inf" /\ dl.neg = 0 THEN <<"lower-bound-plus-infinity", 0>>
   ELSE IF du.cls = "inf" /\ du.neg = 1 THEN <<"upper-bound-minus-infinity", 0>>
-  ELSE LET en == Log2Encl(N, D, EnclBits(dl, du))
-           lo == EnclLo(en)
+  ELSE LET lo == EnclLo(en)
            hi == EnclHi(en)
            lbad == dl.cls # "inf" /\ QLt(hi, FloatQ(dl))
            lok == dl.cls = "inf" \/ QLe(FloatQ(dl), lo)
@@ -177,4 +177,5 @@ Log2BoundsWhy(N, D, dl, du) ==
        IN IF lbad THEN <<"lower-bound-above-log2", 0>>
           ELSE IF ubad THEN <<"upper-bound-below-log2", 0>>
           ELSE <<"", (IF lok THEN 0 ELSE 1) + (IF uok THEN 0 ELSE 1)>>
+Log2BoundsWhy(N, D, dl, du) == BoundsVsEncl(Log2Encl(N, D, EnclBits(dl, du)), dl, du)
 =============================================================================
